@@ -100,7 +100,7 @@ pub fn run(tier: &str, seed: u64) -> i32 {
     let mut rep = Report::new("C12", tier, seed, "exploration");
     rep.rule = "honest executions under seeded schedulers (round-robin, uniform random, PCT with 1-3 change points, starve-one-party, starve-one-link, lazy / eager delivery) x channel capacity 1, 2, unbounded x n=2..4 x every evaluator; oracle: every party Ok(clear-text value), never stuck, never two sends or two receives outstanding per (party, peer). distinct = (n, evaluator, capacity, scheduler kind, AND class); non-trivial = the run had at least one scheduling choice (steps > 0); distinct schedules and interleavings are counted by hash".into();
     rep.assumptions = vec!["per-pair FIFO, reliable channel; schedules are sampled, not enumerated".into()];
-    let n_runs = if thorough { 30000 } else { 1400 };
+    let n_runs = if thorough { 30000 } else { 3000 };
     let outs = parallel_for(n_runs, threads(), |i| one(i, seed, thorough));
     let mut scheds = std::collections::BTreeSet::new();
     let mut ilvs = std::collections::BTreeSet::new();
